@@ -121,12 +121,19 @@ static int getEvent(void *ptr, MPT_STRUCT(event) *ev)
 	return MPT_EVENTFLAG(None);
 }
 /* conditional assignmet */
+static int condValue(void *ptr, MPT_INTERFACE(convertable) *val, const MPT_INTERFACE(collection) *sub)
+{
+	(void) ptr;
+	(void) sub;
+	/* element without value is not set */
+	return val ? 0 : MPT_ERROR(MissingData);
+}
 static int condConfig(void *ptr, const MPT_STRUCT(path) *p, const MPT_STRUCT(value) *val)
 {
 	MPT_INTERFACE(config) *cfg = ptr;
 	int ret;
 	
-	if (cfg->_vptr->query(cfg, p, 0, 0) >= 0) {
+	if (cfg->_vptr->query(cfg, p, condValue, 0) >= 0) {
 		return 0;
 	}
 	ret = cfg->_vptr->assign(cfg, p, val);
